@@ -1,4 +1,5 @@
 import PlumpyModel.Fault.Model
+import PlumpyModel.Fault.Proof0
 import PlumpyModel.Fault.Proof6
 import PlumpyModel.Fault.Proof7
 /-!
@@ -79,16 +80,6 @@ example : liveLabel .running = true ∧ Label.finished ∈ allowed .running ∧
 
 /-! ### user code called in loops that swallow exceptions; construction; `out()` -/
 
-theorem callAll_fold {σ : Type} (cbs : List (Callback σ)) (s : σ) (n k : Nat) :
-    cbs.foldl (fun acc cb => (cb.eff acc.1, acc.2.1 + 1, if cb.raises then acc.2.2 + 1 else acc.2.2)) (s, n, k) =
-      (cbs.foldl (fun t cb => cb.eff t) s, n + cbs.length, k + (cbs.filter (·.raises)).length) := by
-  induction cbs generalizing s n k with
-  | nil => simp
-  | cons cb rest ih =>
-    simp only [List.foldl, List.length_cons]
-    rw [ih]
-    cases h : cb.raises <;> simp [List.filter, h] <;> omega
-
 /-- **listeners and cleanups** (`EventHelper.fire_event`, the cleanup loop of `on_close`): whichever callbacks raise, EVERY callback
 runs exactly once and in order, the state they leave is the one they leave when none of them raises, nothing propagates (the function
 returns a state, not an exception), and exactly the raising ones are logged. -/
@@ -126,13 +117,6 @@ end Fault
 /-! ## Whole runs: faults that are not lifecycle hooks (statements about the model with listeners itself) -/
 namespace PMF
 namespace L
-
-theorem excepted_outcome {c : Cfg} {e : Exc} (hi : Inv2 c) (hs : c.st = .excepted e) :
-    c.fut = .exc e ∧ c.closed = true ∧ c.cleanups = 1 ∧ termCount c.notif = 1 := by
-  have ht : terminal c.st.label = true := by rw [hs]; simp [SObj.label, terminal, allowed]
-  obtain ⟨h1, h2, h3, h4⟩ := hi.term ht
-  rw [hs] at h4
-  exact ⟨by simpa [outcomeOf] using h4.symm, h1, h2, h3⟩
 
 /-- **a step function (or an `out()` call in it) that raises ends the process EXCEPTED with exactly that exception**: for every
 program, plan of listener requests and history, if in the configuration reached the process is live and the stepping task is inside
@@ -206,9 +190,6 @@ def GoodRun (x : FCfg) : Prop :=
 /-- the run ended in an error of the state machine itself (a "cannot transition" / "future already resolved" / failed assertion
 of `call_with_super_check`), not in the fault -/
 def InternalError (x : FCfg) : Prop := ∃ e, Internal e ∧ x.l.c.st = .excepted e
-
-theorem runX_armed (P : Prog) (nf : Nat) (plan : Plan) (a : Arm) (evs : List Ev) :
-    runX P (initX nf plan (some a)) evs = runF P (initX nf plan (some a)) evs := rfl
 
 /-- **a fault in a lifecycle hook of a transition ends the process EXCEPTED with exactly that exception**: for every program,
 every plan of listener requests, every history of events (wake-ups of the stepping task and of callbacks in any order, pause, play,
